@@ -54,17 +54,17 @@ func loadFindings(path string) ([]*Finding, error) {
 
 // Item: one decided unit of a check (SMT obligation, audit clause, or bounded evaluation batch).
 type Item struct {
-	Name    string  `json:"name"`
-	Kind    string  `json:"kind"`
-	Status  string  `json:"status"` // proved | failed | unknown
-	Backend string  `json:"backend"`
-	Secs    float64 `json:"secs"`
-	Detail  string  `json:"detail,omitempty"`
-	Where   string  `json:"where,omitempty"`
-	Bounded bool    `json:"bounded,omitempty"`
-	Reproduced bool `json:"-"`
-	Model   string  `json:"-"`
-	Goal    string  `json:"-"`
+	Name       string  `json:"name"`
+	Kind       string  `json:"kind"`
+	Status     string  `json:"status"` // proved | failed | unknown
+	Backend    string  `json:"backend"`
+	Secs       float64 `json:"secs"`
+	Detail     string  `json:"detail,omitempty"`
+	Where      string  `json:"where,omitempty"`
+	Bounded    bool    `json:"bounded,omitempty"`
+	Reproduced bool    `json:"-"`
+	Model      string  `json:"-"`
+	Goal       string  `json:"-"`
 }
 
 type CheckCtx struct {
